@@ -119,6 +119,18 @@ class E_NoSubclassHook(Exception):
     raise TypeError('E_NoSubclassHook cannot be subclassed')
 
 
+class E_TransientHook(Exception):
+  """Refuses to be subclassed ONCE (e.g. a plugin registry that is not ready
+  yet), later it does not mind."""
+  armed = [True]
+
+  def __init_subclass__(cls, **kw):
+    if E_TransientHook.armed[0]:
+      E_TransientHook.armed[0] = False
+      raise TypeError('E_TransientHook: registry not initialised yet')
+    super().__init_subclass__(**kw)
+
+
 class _FinalMeta(type):
   def __new__(mcs, name, bases, ns, **kw):
     for b in bases:
@@ -174,6 +186,9 @@ def make_exception(shape, tag):
       'GeneratorExit': lambda: (GeneratorExit(m), 'base-exception'),
       'KeyboardInterrupt': lambda: (KeyboardInterrupt(m), 'base-exception'),
       'NoSubclassHook': lambda: (E_NoSubclassHook(m), 'unsubclassable'),
+      # refuses only the FIRST attempt to subclass it
+      'TransientHook': lambda: (E_TransientHook(m),
+                                'unsubclassable' if E_TransientHook.armed[0] else 'full'),
       'FinalMeta': lambda: (E_FinalMeta(m), 'unsubclassable'),
   }
   return table[shape]()
@@ -185,7 +200,7 @@ EXC_SHAPES = ['ValueError', 'KeyError', 'OSError', 'UnicodeDecodeError',
               'TypeError', 'AttributeError', 'RuntimeError',
               'NotImplementedError', 'ImportError', 'RecursionError',
               'B_Base', 'SystemExit', 'GeneratorExit', 'KeyboardInterrupt',
-              'NoSubclassHook', 'FinalMeta']
+              'NoSubclassHook', 'FinalMeta', 'TransientHook']
 
 
 class HostileReprBase(BaseException):
